@@ -75,11 +75,13 @@ theorem heat_budget (e : Env ℝ) (ps : List (Particle ℝ)) (hE : WfE e) (hW : 
     contributes (dissolution rate) · neg_dH_solR · Ru / M, with dissolution rate
     `A·nbe·β_c·(Cs_c − c_c)·dtp/dt` -/
 theorem heatSol_term (e : Env ℝ) (p : Particle ℝ) (hE : WfE e) (hp : WfP e p) (hi : p.integrate = true)
-    (hs : p.issoluble = true) (hH : p.negdH.length = e.nchems) (hM : p.Mw.length = e.nchems) :
+    (hs : p.issoluble = true) :
     ∃ terms : List ℝ, heatSol e p = terms.sum ∧ terms.length = e.nchems ∧
       ∀ c, c < e.nchems → terms.getD c 0
         = (p.A * p.nbe * p.beta.getD c 0 * (p.Cs.getD c 0 - e.c_chems.getD c 0) * p.dtp)
             * p.negdH.getD c 0 * e.Ru / p.Mw.getD c 0 := by
+  have hH := hp.negdH hi hs
+  have hM := hp.Mw hi hs
   refine ⟨_, by unfold heatSol; rw [Num.real_sum], ?_, ?_⟩
   · simp [dmPc_length e hE p hp hi, hH, hM]
   · intro c hc
@@ -89,18 +91,13 @@ theorem heatSol_term (e : Env ℝ) (p : Particle ℝ) (hE : WfE e) (hp : WfP e p
     simp only [Num.real_one]
     ring
 
-/-- **Mass, salt, horizontal momentum**: only what the entrained ambient water carries in. -/
+/-- **Mass, salt, horizontal momentum**: only what the entrained ambient water carries in.
+    DEFINITIONAL (read-back of four slots of the model; its content is the correspondence of the model with
+    the code plus the independent oracle for `md`, `Sa`, `ua`, `va` in harness/c03.py). -/
 theorem mass_salt_momentum (e : Env ℝ) (ps : List (Particle ℝ)) :
     (derivs e ps).getD 0 0 = e.md ∧ (derivs e ps).getD 1 0 = e.md * e.Sa ∧
     (derivs e ps).getD 3 0 = e.md * e.ua ∧ (derivs e ps).getD 4 0 = e.md * e.va := by
   simp [derivs, headSlots]
-
-/-- the remaining element slots: vertical momentum (buoyancy + entrained wa), constant h/V, advection -/
-theorem kinematic_slots (e : Env ℝ) (ps : List (Particle ℝ)) :
-    (derivs e ps).getD 5 0 = -e.g / (e.gamma * e.rho_r) * (e.Fb + e.M * (e.rho_a - e.rho)) + e.md * e.wa ∧
-    (derivs e ps).getD 6 0 = 0 ∧ (derivs e ps).getD 7 0 = e.u ∧ (derivs e ps).getD 8 0 = e.v ∧
-    (derivs e ps).getD 9 0 = e.w ∧ (derivs e ps).getD 10 0 = e.V := by
-  simp [derivs, headSlots, jzSlot]
 
 /-- passive tracers change by entrainment only -/
 theorem tracer_budget (e : Env ℝ) (ps : List (Particle ℝ)) (hE : WfE e) (hW : Wf e ps)
@@ -119,7 +116,8 @@ theorem tracer_budget (e : Env ℝ) (ps : List (Particle ℝ)) (hE : WfE e) (hW 
   unfold tracerSlots
   exact getD_map _ _ _ hj
 
-/-- **Particles that have left the plume**: all their `nc + 5` slots are zero … -/
+/-- **Particles that have left the plume**: all their `nc + 5` slots are zero …  DEFINITIONAL (one unfolding of
+    `block`); the substantive statements are `outside_no_budget` below and the removal predicate of the harness. -/
 theorem outside_zero (e : Env ℝ) (p : Particle ℝ) (h : p.integrate = false) :
     block e p = List.replicate (p.nc + 5) 0 := by
   simp [block, h]
@@ -164,6 +162,53 @@ theorem layout (e : Env ℝ) (ps : List (Particle ℝ)) (hE : WfE e) (hW : Wf e 
     · simp [h]; omega
   simp [derivs, headSlots, blocks_length e hE ps hW, hl, tracerSlots]
   omega
+
+
+/-! ### the closures (Model/Lmp.lean PART 4) -/
+
+/-- **Maximum hypothesis**: the entrainment is at least the shear and at least the forced entrainment -/
+theorem entrainment_ge (i : EntIn ℝ) : mdShear i ≤ entrainment i ∧ mdForced i ≤ entrainment i := by
+  unfold entrainment
+  split
+  · rename_i h; exact ⟨le_refl _, le_of_lt h⟩
+  · rename_i h; exact ⟨not_lt.mp h, le_refl _⟩
+
+/-- … and it IS one of the two -/
+theorem entrainment_is_max (i : EntIn ℝ) : entrainment i = max (mdShear i) (mdForced i) := by
+  unfold entrainment
+  split
+  · rename_i h; exact (max_eq_left (le_of_lt h)).symm
+  · rename_i h; exact (max_eq_right (not_lt.mp h)).symm
+
+/-- **Particle time dilation is non-negative** while the element advances (`0 ≤ V`, `0 ≤ ds`) -/
+theorem dtp_nonneg (V fe ds : ℝ) (up : List ℝ) (Xn Xm : ℝ) (x0 x1 : List ℝ) (hV : 0 ≤ V) (hds : 0 ≤ ds) :
+    0 ≤ dtpOf V fe ds up Xn Xm x0 x1 := by
+  unfold dtpOf
+  simp only [Num.real_sqrt, Num.real_zero, Num.real_one]
+  split
+  · exact le_refl _
+  · split
+    · exact zero_le_one
+    · exact div_nonneg (mul_nonneg (div_nonneg hV (Real.sqrt_nonneg _)) (Real.sqrt_nonneg _)) hds
+
+/-- **A particle outside the plume exerts no buoyant force**: `p_fac = 0`, hence `fb = 0`, whatever its masses -/
+theorem buoyant_force_outside_zero (rho rho_a rho_p nbe b Xl Xn Xm : ℝ) (Mp : List ℝ) :
+    fbOf rho rho_a rho_p nbe (pFac false b Xl Xn Xm) Mp = 0 := by
+  unfold fbOf pFac
+  simp only [Bool.false_eq_true, if_false, Num.real_zero]
+  split <;> simp
+
+/-- the buoyancy reduction factor is 0 beyond the half-width and never negative -/
+theorem pFac_nonneg (integ : Bool) (b Xl Xn Xm : ℝ) : 0 ≤ pFac integ b Xl Xn Xm := by
+  unfold pFac
+  simp only [Num.real_zero]
+  split
+  · split
+    · exact le_refl _
+    · split
+      · exact le_refl _
+      · rename_i h; exact not_lt.mp h
+  · exact le_refl _
 
 /-! ### non-vacuity: a concrete state with a soluble particle inside the plume, an inert particle
     inside, and a soluble particle outside; two compounds with background concentration,
